@@ -260,6 +260,91 @@ def chacha_new_contract():
                     modifies=['kwargs'])
 
 
+# ------------------------------------------------------------------------------------------------ Salsa20, ARC4
+
+def salsa_class(reg, empty=False):
+    reg.add(ClassContract(SA + 'Salsa20Cipher', fields={} if empty else {'nonce': 'bytes', '_state': 'obj:' + SP, 'block_size': 'int', 'key_size': 'int'},
+                          valid=['%s is not None' % P, '%s.g_alg == 8' % P, 'not %s.g_freed' % P, '%s.g_nonce == self.nonce' % P,
+                                 'len(self.nonce) == 8', 'len(%s.g_key) in (16, 32)' % P, 'self.key_size == len(%s.g_key)' % P, 'self.block_size == 1']))
+
+
+def plain_stream_contracts(alg, q, has_output):
+    """encrypt / decrypt of a stream cipher without call-order automaton (Salsa20, ARC4): xor with the key stream at the current position"""
+    out = []
+    for op, data in (('encrypt', 'plaintext'), ('decrypt', 'ciphertext')):
+        params = {data: 'buffer'}
+        produced = 'result'
+        raises = {}
+        mods = [P + '.g_pos']
+        if has_output:
+            params['output'] = 'none|bytearray'
+            produced = '(result if output is None else bytes(output))'
+            raises['ValueError'] = ('iff', 'output is not None and len(output) != len(%s)' % data)
+            mods.append('output')
+        ens = {'value': '%s == spec.modes.stream(%d, %s.g_key, %s.g_nonce, old(%s.g_pos), old(bytes(%s)))' % (produced, alg, P, P, P, data),
+               'pos': '%s.g_pos == old(%s.g_pos) + len(%s)' % (P, P, data), 'valid': 'valid(self)'}
+        if has_output:
+            ens['returns'] = '(output is None) == (result is not None)'
+        out.append(Contract(q + op, params=params, requires=[SIZE_T % ('len(%s)' % data)], raises=raises, ensures=ens, modifies=mods,
+                            result='bytes|none' if has_output else 'bytes'))
+    return out
+
+
+def salsa_init_contract():
+    return Contract(SA + 'Salsa20Cipher.__init__', params={'key': 'buffer', 'nonce': 'buffer'},
+                    raises={'ValueError': ('iff', '(len(key) != 16 and len(key) != 32) or len(nonce) != 8')},
+                    ensures={'nonce': 'self.nonce == bytes(nonce) and isinstance(self.nonce, bytes)',
+                             'native': '%s.g_key == bytes(key) and %s.g_nonce == bytes(nonce) and %s.g_pos == 0' % (P, P, P),
+                             'destructor': "self._state._destructor.__name__ == 'Salsa20_stream_destroy'", 'valid': 'valid(self)'},
+                    modifies=['self.nonce', 'self._state', 'self.block_size', 'self.key_size'], options={'assume_valid': False})
+
+
+def salsa_new_contract():
+    R = 'result._state._raw_pointer'
+    return Contract(SA + 'new', params={'key': 'buffer', 'nonce': 'buffer|none'},
+                    raises={'ValueError': ('iff', '(len(key) != 16 and len(key) != 32) or (nonce is not None and len(nonce) != 8)')},
+                    ensures={'nonce': '(nonce is not None ==> result.nonce == bytes(nonce)) and (nonce is None ==> result.nonce == sys_tape(0, 8))',
+                             'native': '%s.g_key == bytes(key) and %s.g_nonce == result.nonce and %s.g_pos == 0' % (R, R, R), 'valid': 'valid(result)'},
+                    modifies=[])
+
+
+def arc4_class(reg, empty=False):
+    reg.add(ClassContract(A4 + 'ARC4Cipher', fields={} if empty else {'_state': 'obj:' + SP, 'block_size': 'int', 'key_size': 'int'},
+                          valid=['%s is not None' % P, '%s.g_alg == 7' % P, 'not %s.g_freed' % P, "%s.g_nonce == b''" % P]))
+
+
+def arc4_init_contract():
+    drop = "(args[0] if len(args) > 0 else kwargs.get('drop', 0))"
+    return Contract(A4 + 'ARC4Cipher.__init__', params={'key': 'buffer', 'args': 'tuple()|tuple(int)', 'kwargs': 'dict()|dict(drop:int)'},
+                    requires=['%s <= 9223372036854775807' % drop],
+                    raises={'ValueError': ('iff', 'not spec.modes.key_len_ok(7, len(key))')},
+                    ensures={'native': '%s.g_key == bytes(key)' % P,
+                             # RC4-drop[n]: the first n bytes of the key stream are discarded
+                             'drop': '%s.g_pos == old(%s if %s > 0 else 0)' % (P, drop, drop),
+                             'sizes': 'self.block_size == 1 and self.key_size == len(key)', 'valid': 'valid(self)',
+                             'destructor': "self._state._destructor.__name__ == 'ARC4_stream_destroy'"},
+                    modifies=['self._state', 'self.block_size', 'self.key_size', 'kwargs'], options={'assume_valid': False})
+
+
+def chacha_lemma_contracts():
+    A, B = 'enc._state._raw_pointer', 'dec._state._raw_pointer'
+    rt = Contract('spec.modes.lemma_roundtrip', params={'enc': 'obj:' + CH + 'ChaCha20Cipher', 'dec': 'obj:' + CH + 'ChaCha20Cipher', 'm': 'bytes'},
+                  requires=[SIZE_T % 'len(m)', '%s.g_key == %s.g_key' % (A, B), '%s.g_nonce == %s.g_nonce' % (A, B), '%s.g_pos == %s.g_pos' % (A, B),
+                            "'encrypt' in enc._next and 'decrypt' in dec._next", 'len(m) == 0 or %s.g_pos + len(m) <= %s' % (A, chacha_limit(A))],
+                  raises={}, ensures={'inverse': 'result == m'}, modifies=None, opaque=['spec.modes.chacha_blocks'],
+                  # (the real method bodies are executed; the inverse law is the SIG fact of spec.modes.stream: xor with the same key stream twice)
+                  inline=[CH + 'ChaCha20Cipher.encrypt', CH + 'ChaCha20Cipher.decrypt', CH + 'ChaCha20Cipher._encrypt'])
+    Q = 'obj._state._raw_pointer'
+    ip = Contract('spec.modes.lemma_inplace_encrypt', params={'obj': 'obj:' + CH + 'ChaCha20Cipher', 'buf': 'bytearray'},
+                  requires=[SIZE_T % 'len(buf)', "'encrypt' in obj._next"],
+                  raises={'ValueError': ('iff', 'len(buf) > 0 and %s.g_pos + len(buf) > %s' % (Q, chacha_limit(Q)))},
+                  ensures={'value': 'bytes(buf) == spec.modes.stream(9, %s.g_key, %s.g_nonce, old(%s.g_pos), old(bytes(buf)))' % (Q, Q, Q),
+                           'none': 'result is None'},
+                  inline=[CH + 'ChaCha20Cipher.encrypt', CH + 'ChaCha20Cipher._encrypt'],
+                  modifies=['buf', Q + '.g_pos', 'obj._next'], opaque=['spec.modes.chacha_blocks'])
+    return [rt, ip]
+
+
 # ------------------------------------------------------------------------------------------------ registry / units
 
 def registry(what='chacha', variant='rw', state=None):
@@ -280,6 +365,29 @@ def registry(what='chacha', variant='rw', state=None):
         else:
             for c in chacha_contracts(variant):
                 reg.add(c)
+            if variant == 'rw':
+                for c in chacha_lemma_contracts():
+                    reg.add(c)
+    elif what == 'salsa':
+        install_salsa(reg)
+        salsa_class(reg, empty=(variant == 'init'))
+        if variant == 'init':
+            reg.add(salsa_init_contract())
+        elif variant == 'new':
+            c = salsa_init_contract()
+            del c.ensures['destructor']
+            reg.add(c)
+            reg.add(salsa_new_contract())
+        else:
+            for c in plain_stream_contracts(8, SA + 'Salsa20Cipher.', True):
+                reg.add(c)
+    elif what == 'arc4':
+        install_arc4(reg)
+        arc4_class(reg, empty=(variant == 'init'))
+        for c in plain_stream_contracts(7, A4 + 'ARC4Cipher.', False):
+            reg.add(c)
+        if variant == 'init':
+            reg.add(arc4_init_contract())
     return reg
 
 
@@ -296,6 +404,18 @@ def units(prop, tier):
         out.append(pyvc_unit(prop, 'chacha20._encrypt.readonly_output', lambda: registry('chacha', 'ro', state='any'), [q + '_encrypt']))
     if prop in ('C11', 'C10', 'C17'):
         out.append(pyvc_unit(prop, 'chacha20.seek', lambda: registry('chacha', state='any'), [q + 'seek']))
+    if prop == 'C02':
+        out.append(pyvc_unit(prop, 'chacha20.roundtrip', lambda: registry('chacha'), ['spec.modes.lemma_roundtrip']))
+    if prop in ('C09', 'C17'):
+        out.append(pyvc_unit(prop, 'chacha20.inplace', lambda: registry('chacha'), ['spec.modes.lemma_inplace_encrypt']))
+    S20, R4 = SA + 'Salsa20Cipher.', A4 + 'ARC4Cipher.'
+    if prop in ('C02', 'C09', 'C17', 'C19'):
+        out.append(pyvc_unit(prop, 'salsa20.encrypt_decrypt', lambda: registry('salsa'), [S20 + 'encrypt', S20 + 'decrypt']))
+        out.append(pyvc_unit(prop, 'arc4.encrypt_decrypt', lambda: registry('arc4'), [R4 + 'encrypt', R4 + 'decrypt']))
+    if prop in ('C02', 'C17'):
+        out.append(pyvc_unit(prop, 'salsa20.init', lambda: registry('salsa', 'init'), [S20 + '__init__']))
+        out.append(pyvc_unit(prop, 'salsa20.new', lambda: registry('salsa', 'new'), [SA + 'new']))
+        out.append(pyvc_unit(prop, 'arc4.init', lambda: registry('arc4', 'init'), [R4 + '__init__'], weight=2))
     if prop in ('C02', 'C17'):
         out.append(pyvc_unit(prop, 'chacha20.init', lambda: registry('chacha', 'init'), [q + '__init__'], weight=2))
         out.append(pyvc_unit(prop, 'chacha20.new', lambda: registry('chacha', 'new'), [CH + 'new'], weight=3))
